@@ -96,6 +96,17 @@ class Unbound:
 UNBOUND = Unbound()
 
 
+class Pending:
+    """Content of a trace list between the havoc at a call site and the defining equation of the
+    callee's postcondition."""
+
+    def __repr__(self):
+        return '<pending>'
+
+
+PENDING = Pending()
+
+
 # ------------------------------------------------------------------------------------------------
 # Enum encoding
 
@@ -297,6 +308,82 @@ class GList:
 
     def __repr__(self):
         return f'GList({len(self.items)})'
+
+
+class SMap:
+    """[elt for x in src] over a list src of symbolic length (SSeq or another SMap): immutable,
+    lazy.  at(value) evaluates the element expression for a given source element."""
+
+    def __init__(self, src, node, frame, interp):
+        self.src = src
+        self.node = node
+        self.frame = frame
+        self.interp = interp
+
+    def base(self):
+        s = self
+        while isinstance(s, SMap):
+            s = s.src
+        return s
+
+    def at(self, x):
+        it = self.interp
+        if isinstance(self.src, SMap):
+            x = self.src.at(x)
+        cfr = Frame(self.frame.globals, self.frame.cls, self.frame, self.frame.name + '.<comp>')
+        cfr.fdef = getattr(self.frame, 'fdef', None)
+        it.assign(self.node.generators[0].target, x, cfr)
+        return it.ev(self.node.elt, cfr)
+
+    def __repr__(self):
+        return 'SMap(...)'
+
+
+def smap_eq(it, a, b):
+    """Two lazy maps over the same base list are equal iff their element expressions agree on an
+    arbitrary element of the base list's element type (sound; complete up to the element type)."""
+    if isinstance(a, SSeq) and isinstance(b, SMap):
+        a, b = b, a
+    if isinstance(a, SMap) and isinstance(b, SSeq):
+        # a lazy map against a plain list of symbolic length: the plain list is its own identity map
+        ba = a.base()
+        if not (ba is b or (ba.arr.eq(b.arr) and (ba.n is b.n or (isinstance(ba.n, z3.ExprRef) and
+                                                                   isinstance(b.n, z3.ExprRef) and
+                                                                   ba.n.eq(b.n))))):
+            raise EngineError('lazy list and plain list over different base lists')
+        k = it.ctx.fresh_int('elt')
+        t = z3.Select(ba.arr, k)
+        tc = ba.elem.typ(t)
+        if tc is not None:
+            it.ctx.assume_type(tc)       # elements of a typed list are well-typed
+        x = ba.elem.wrap(t)
+        inrange = z3.And(k >= 0, k < T(ba.n))
+        body = it.eq(a.at(x), x)
+        hyp = z3.And(inrange, tc) if tc is not None else inrange
+        return mk_bool(z3.Implies(hyp, BT(body)))
+    if not (isinstance(a, SMap) and isinstance(b, SMap)):
+        # a lazy map against a concrete empty list
+        other = b if isinstance(a, SMap) else a
+        m = a if isinstance(a, SMap) else b
+        if isinstance(other, SList) and not other.items:
+            return mk_bool(T(m.base().n) == 0)
+        raise EngineError('comparison of a lazy list with a non-lazy one')
+    ba, bb = a.base(), b.base()
+    same_base = ba is bb or (isinstance(ba.n, z3.ExprRef) and isinstance(bb.n, z3.ExprRef) and
+                             ba.n.eq(bb.n) and ba.arr.eq(bb.arr)) or \
+        (ba.n is bb.n and ba.arr.eq(bb.arr))
+    if not same_base:
+        raise EngineError('lazy lists over different base lists')
+    k = it.ctx.fresh_int('elt')
+    t = z3.Select(ba.arr, k)
+    tc = ba.elem.typ(t)
+    if tc is not None:
+        it.ctx.assume_type(tc)           # elements of a typed list are well-typed
+    x = ba.elem.wrap(t)
+    inrange = z3.And(k >= 0, k < T(ba.n))
+    body = it.eq(a.at(x), b.at(x))
+    hyp = z3.And(inrange, tc) if tc is not None else inrange
+    return mk_bool(z3.Implies(hyp, BT(body)))
 
 
 class Frame(Mut):
